@@ -329,12 +329,12 @@ def scenario_list(rng, world, thorough):
     return sc
 
 
-def do_world(cx, world, idx, thorough, want_diff=True):
+def do_world(cx, world, idx, thorough, want_diff=True, only=None):
     ck, rng, work = cx.ck, cx.ck.rng, cx.ck.work
     build_files(cx.exe["cgio_h"], work, world, rng)
     src, be = world["src"], world["be"]
     fl = world["flags"]
-    scen = scenario_list(rng, world, thorough)
+    scen = only if only is not None else scenario_list(rng, world, thorough)
     ext = lambda y: "adf" if y == "adf" else "hdf"
     # ---- implementation: one process per scenario (HDF5 keeps files reached through external links open after the
     #      linking file is closed, so scenarios must not share a process); the source is walked in its own process
@@ -429,7 +429,7 @@ def do_world(cx, world, idx, thorough, want_diff=True):
         elif mst == "ok":
             problem = {"oracle": "the copy fails on a source the model copies", "outcome": raw}
         if problem:
-            fail(cx, world, idx, dict(problem, scenario=key, impl_status=raw, model_status=mst))
+            fail(cx, world, idx, dict(problem, scenario=key, scen=[api, y, fo], impl_status=raw, model_status=mst))
             continue
         # correspondence with the extracted model
         if (st, d0[2] if st == "ok" else None) != (mst if mst in ("ok", "err") else mst, mdump if mst == "ok" else None):
@@ -469,10 +469,91 @@ def tree_stats(kids):
 
 def fail(cx, world, idx, info):
     """a property-level failure on the implementation (model independent)"""
-    cx.failures.append(dict(info, kind="property", world=idx, backend=world["be"], flags=world["flags"],
-                            model_world=[l if len(l) < 300 else l[:300] + "..." for f in world["order"]
-                                         for l in model_file(f, world["be"], world["trees"][f])][:400]))
+    full = [l for f in world["order"] for l in model_file(f, world["be"], world["trees"][f])]
+    cx.failures.append(dict(info, kind="property", world=idx, backend=world["be"], flags=world["flags"], src=world.get("src"),
+                            mll=bool(world.get("mll")), world_obj=world,
+                            model_world=[l if len(l) < 300 else l[:300] + "..." for l in full][:400],
+                            model_world_full=full if sum(map(len, full)) < 3000000 else None))
     return None
+
+
+def world_from_model(lines, be, src):
+    """inverse of model_file: the engine's F/N/L/E lines -> world (for --replay)"""
+    trees, order, cur, stack = {}, [], None, None
+    unh = lambda x: b"" if x == "-" else bytes.fromhex(x)
+    for l in lines:
+        t = l.split(" ")
+        if t[0] == "F":
+            cur = bytes.fromhex(t[1]).decode(); trees[cur] = []; order.append(cur); stack = {0: trees[cur]}
+        elif t[0] == "N":
+            d = int(t[1])
+            n = N(unh(t[2]), unh(t[3]), bytes.fromhex(t[4]).decode(), [int(x) for x in t[5].split(",")] if t[5] != "-" else [], unh(t[6]))
+            stack[d - 1].append(n); stack[d] = n["kids"]
+        elif t[0] == "L":
+            stack[int(t[1]) - 1].append(L(unh(t[2]), unh(t[3]), unh(t[4])))
+    fl = {"links": 0, "ext": 0, "int": 0, "chain": 0, "nested": 0, "dangling": 0}
+    for f in order:
+        for p_, n, _ in walk(trees[f]):
+            if n["k"] == "L":
+                fl["links"] += 1; fl["ext" if n["file"] else "int"] += 1
+    fl["chain"] = fl["int"]          # unknown: assume the conservative settings of the oracles
+    return {"trees": trees, "order": order, "src": src, "be": be, "flags": fl}
+
+
+class _Quiet:
+    """a stand-in for the Check object while a failing world is being shrunk / replayed"""
+    def __init__(self, ck):
+        self.rng, self.work, self.cov, self.seed = ck.rng, ck.work, {"traces_validated_against_impl": 0}, ck.seed
+    def case(self, *a, **k):
+        pass
+    def finding(self, *a, **k):
+        pass
+
+
+def still_fails(cx, world, scen, oracle):
+    q = Ctx(_Quiet(cx.ck)); q.exe = cx.exe
+    try:
+        do_world(q, world, -2, True, want_diff=False, only=[tuple(scen)])
+    except vlib.Infra:
+        return False
+    return any(f["kind"] == "property" and f.get("oracle") == oracle for f in q.failures)
+
+
+def shrink(cx, f):
+    """delta debugging over the nodes of the source file (link targets are kept): a smaller world failing the same oracle"""
+    world, scen, oracle = f.get("world_obj"), f.get("scen"), f.get("oracle")
+    if not world or not scen:
+        return f
+    src = world["src"]
+    keep = {segs for ff, segs in link_targets(world["trees"]) if ff == src}
+    items = [p for p, n, _ in walk(world["trees"][src]) if not any(t[:len(p)] == p for t in keep)]
+
+    def reduced(paths):
+        ps = set(paths)
+        w = dict(world, trees=dict(world["trees"]))
+
+        def filt(kl, prefix):
+            out = []
+            for n in kl:
+                p = prefix + (n["name"],)
+                if p in items_set and p not in ps:
+                    continue
+                c = dict(n)
+                if n["k"] == "N":
+                    c["kids"] = filt(n["kids"], p)
+                out.append(c)
+            return out
+        w["trees"][src] = filt(world["trees"][src], ())
+        return w
+    items_set = set(items)
+    if not still_fails(cx, world, scen, oracle):
+        return f
+    small = vlib.ddmin(items, lambda sub: still_fails(cx, reduced(sub), scen, oracle), max_tests=40)
+    w = reduced(small)
+    full = [l for ff in w["order"] for l in model_file(ff, w["be"], w["trees"][ff])]
+    return dict(f, shrunk_nodes=len(small), original_nodes=len(items),
+                model_world=[l if len(l) < 300 else l[:300] + "..." for l in full][:400],
+                model_world_full=full if sum(map(len, full)) < 3000000 else None)
 
 
 # ------------------------------------------------------------------------------------------------ cgnsdiff
@@ -926,7 +1007,8 @@ def run(ck, pid="C09"):
     props = [f for f in cx.failures if f["kind"] == "property"]
     corr = [f for f in cx.failures if f["kind"] == "correspondence"]
     for f in props[:3]:
-        ck.violation(f)
+        f = shrink(cx, f)
+        ck.violation({k: v for k, v in f.items() if k != "world_obj"})
     if not props and (corr or broken):
         ck.violation({"broken_obligations": broken, "correspondence_divergences": corr[:5],
                       "note": "the model (or a theorem about it) no longer describes the code; no input on which the property itself fails was found "
@@ -939,11 +1021,20 @@ def replay(ck, path):
     r = json.load(open(path))
     cx = Ctx(ck)
     build_all(cx)
-    if r.get("finding_key") or r.get("model_world") is None:
+    if r.get("finding_key") or not r.get("model_world_full"):
         before = len(ck.violations) + len(ck.known_hits)
         witnesses(cx)
         bad = len(ck.violations) + len(ck.known_hits) - before + len([f for f in cx.failures if f["kind"] == "property"])
         print("replay: witnesses %s" % ("still fail" if bad else "hold"))
         return 1 if bad else 0
-    print("replay: the recorded world is in 'model_world' (engine c09 input); scenario %s; oracle %s" % (r.get("scenario"), r.get("oracle")))
-    return 1
+    w = world_from_model(r["model_world_full"], r["backend"], r["src"])
+    if r.get("mll"):
+        w["mll"] = True
+    q = Ctx(_Quiet(ck)); q.exe = cx.exe
+    do_world(q, w, 0, True, want_diff="cgnsdiff" in (r.get("oracle") or ""), only=[tuple(r["scen"])] if r.get("scen") else None)
+    bad = [f for f in q.failures if f["kind"] == "property"]
+    for f in bad[:3]:
+        print("replay: fails -- %s" % json.dumps({k: v for k, v in f.items() if k in ("oracle", "scenario", "first_difference", "outcome", "edit", "path", "output")})[:1500])
+    if not bad:
+        print("replay: holds")
+    return 1 if bad else 0
